@@ -144,7 +144,7 @@ impl From<&BuiltInFunction> for TypeQualifier {
             BuiltInFunction::String => Self::DollarString,
             BuiltInFunction::UBound => Self::PercentInteger,
             BuiltInFunction::UCase => Self::DollarString,
-            BuiltInFunction::Val => Self::BangSingle,
+            BuiltInFunction::Val => Self::HashDouble,
             BuiltInFunction::VarPtr => Self::PercentInteger,
             BuiltInFunction::VarSeg => Self::PercentInteger,
         }
